@@ -257,6 +257,36 @@ harness! {
     }
 }
 
+// extreme magnitudes: x * w overflows to +inf although x and w are finite -- the weight still counts (fully concrete)
+harness! {
+    #[kani::unwind(6)]
+    fn c16_td_overflowing_product_counts() {
+        let mut t = TDigest::new(K0::new(10.), 5);
+        t.insert_weighted(1e200, 1e200);
+        assert!(!t.is_empty(), "C16 is_empty is false once a positive weight was inserted");
+        assert!(t.count() == 1e200, "C16 count() equals the sum of the inserted weights, whatever the magnitude of the values");
+        assert!(t.min() == 1e200 && t.max() == 1e200, "C16 min()/max() are exactly the inserted value");
+    }
+}
+
+// the same value twice in a row with non-unit weights, no read in between (fully concrete; merge of two backlog entries)
+harness! {
+    #[kani::unwind(8)]
+    fn c16_td_repeated_value_weighted() {
+        let mut t = TDigest::new(K0::new(10.), 5);
+        t.insert_weighted(10., 2.);
+        t.insert_weighted(10., 3.);
+        {
+            let inner = t.inner.borrow();
+            let mut c = 0.; let mut sm = 0.;
+            let mut i = 0;
+            while i < inner.backlog.len() { c += inner.backlog[i].count; sm += inner.backlog[i].sum; i += 1; }
+            assert!(c == 5. && sm == 50., "C16 every insert is accounted with its weight and weighted value");
+        }
+        assert!(t.count() == 5. && t.sum() == 50. && t.mean() == 10., "C16 count/sum/mean after repeated weighted inserts of one value");
+    }
+}
+
 // public wrapper: a positive finite weight always reaches the digest (complete, loop-free)
 harness! {
     fn c16_td_insert_weighted_wrapper() {
